@@ -13,7 +13,8 @@ use std::cmp::Ordering;
 
 const FINDING: &str = "letter-weight-ascii";
 
-const POOL: [&str; 27] = [
+const POOL: [&str; 31] = [
+    "p1", "p2", "9base", "p10",
     "p-1", "p-1.0", "p-1_0", "p-1.00", "p-1.0nb1", "p-2rc1", "p-2", "p-10", "q-1", "q-2", "q-0",
     "r-5", "p", "pq-3", "p-1.0a", "p-1.0.5", "p-a-2", "p-b-1", "p-b-2", "p-1nb2", "p+-2", "p-0a-2",
     "p-1pre1", "p-1pl1", "p-2.99999999999999999999", "p-2.rc1", "p-2.beta3",
@@ -316,7 +317,7 @@ fn main() {
     }
     run.rule(
         "10 patterns (dewey, two-bound, glob, brace+glob, brace+dewey, '*', plain, upper bound) x a \
-         27-name pool (same base with tied spellings 1/1.0/1_0/1.00, revisions, rc, a second and \
+         31-name pool (four of them without '-') (same base with tied spellings 1/1.0/1_0/1.00, revisions, rc, a second and \
          third base, a name without '-', a letter version): every ordered pair (None iff neither \
          matches; result is one of the two and matches; symmetric; equals the model winner), and \
          every candidate list of <= N names with repetition in every order x every binary \
